@@ -453,13 +453,8 @@ def _m_single_column_collision(f):
             and (c.get("lost_digest_shared_with") or 0) >= 2)
 
 
-def _m_raised(f):
-    return f.get("kind") == "carving-raised" and any(m(f) for m in P8.MATCHERS.values())
-
-
 MATCHERS = {
     "c09_variable_first_column": _m_variable_first,
     "c09_freelist_page_not_rewritten": _m_freelist_not_rewritten,
-    "c09_carving_raised": _m_raised,
     "c09_single_column_bogus_collision": _m_single_column_collision,
 }
